@@ -15,7 +15,7 @@ PROPERTY = "C07"
 LEVEL = "model_checking"
 VARIANTS = ["fast"]
 RULE = ("relations: all ordered pairs and all triples over the value pool (one representative per comparison shortcut); histories: all "
-        "operation sequences of depth <=3 (quick) / <=4 (thorough) over 18 operations from 2 initial maps, stateless (bucket layout after "
+        "operation sequences of depth <=3 (quick) / <=4 (thorough) over 22 operations from 2 initial maps, stateless (bucket layout after "
         "key mutation is hidden state), states = distinct reference contents reached, transitions = operations executed and compared")
 ASSUMPTIONS = [
     "values containing nil or NaN are outside the pool (the statement excludes them)",
@@ -124,21 +124,26 @@ def check_rel(ws, case):
 
 
 # ------------------------------------------------------------------ hashmap histories
-KEYS = ["0", "-0", "1", '"a"', '"A"', "true", "KA", "[1]", "[1,2]", "{0}", "{-0}"]
+KEYS = ["0", "-0", "1", '"a"', '"A"', "true", "KA", "[1]", "[1,2]", "{0}", "{-0}", "KN", "[[1]]", "[[1,2]]"]
+# KN = [KI] is an array key whose ELEMENT is shared with the script: capture by value has to be deep
 OPS = (
     [("set", k) for k in ["0", "-0", '"a"', '"A"', "KA", "[1,2]", "{0}", "{-0}"]] +
     [("del", k) for k in ["0", '"a"', "KA", "[1]", "{0}"]] +
-    [("mut", "push"), ("mut", "pop"), ("copy",), ("cset", '"a"'), ("cdel", "0")]
+    [("mut", "push"), ("mut", "pop"), ("copy",), ("cset", '"a"'), ("cdel", "0")] +
+    [("set", "KN"), ("del", "[[1]]"), ("mut", "inner-push"), ("mut", "inner-pop")]
 )
 INITS = ["empty", "from-array"]
 
 
-def key_class(rep, ka):
-    """Equality class of a key given by source text; ka = current content of the shared array KA."""
+def key_class(rep, kak):
+    """Equality class of a key given by source text; kak = current contents of the shared arrays (KA, KI)."""
+    ka, ki = kak
     if rep in ("0", "-0"):
         return "n0"
     if rep == "KA":
         return "arr:" + json.dumps(ka)
+    if rep == "KN":
+        return "arr:" + json.dumps([ki])
     if rep.startswith("["):
         return "arr:" + json.dumps(json.loads(rep))
     if rep in ("{0}", "{-0}"):
@@ -155,10 +160,16 @@ def printed_class(v):
     if isinstance(v, str):
         return '"%s"' % v
     if isinstance(v, list):
-        return "arr:" + json.dumps([int(x) if isinstance(x, float) and x == int(x) else x for x in v])
+        return "arr:" + json.dumps(_ints(v))
     if isinstance(v, tuple) and v[0] == "raw":
         return "code0" if v[1].replace(" ", "") in ("{0}", "{-0}") else v[1]
     return repr(v)
+
+
+def _ints(v):
+    if isinstance(v, list):
+        return [_ints(x) for x in v]
+    return int(v) if isinstance(v, float) and v == int(v) else v
 
 
 def gen_hist(depth):
@@ -175,17 +186,18 @@ OBS = 'diag_log str [count M, K apply {_x in M}, K apply {M get _x}, keys M]; if
 
 def check_hist(ws, case):
     init, seq = case
-    ka = [1]
+    ka = ([1], [1])
     ref = {}
     refc = None
-    lines = ["KA = [1]; K = [%s];" % ",".join(KEYS)]
+    lines = ["KA = [1]; KI = [1]; KN = [KI]; K = [%s];" % ",".join(KEYS)]
     if init == "empty":
         lines.append("M = createHashMap;")
     else:
-        lines.append('M = createHashMapFromArray [[0, 100], ["a", 101], [KA, 102], [0, 103]];')
+        lines.append('M = createHashMapFromArray [[0, 100], ["a", 101], [KA, 102], [0, 103], [KN, 104]];')
         ref[key_class("0", ka)] = 103
         ref[key_class('"a"', ka)] = 101
         ref[key_class("KA", ka)] = 102
+        ref[key_class("KN", ka)] = 104
     exp = []
     states = set()
     for n, oi in enumerate(seq):
@@ -200,10 +212,16 @@ def check_hist(ws, case):
         elif op[0] == "mut":
             if op[1] == "push":
                 lines.append("KA pushBack 2;")
-                ka = ka + [2]
-            else:
+                ka = (ka[0] + [2], ka[1])
+            elif op[1] == "pop":
                 lines.append("if (count KA > 1) then { KA deleteAt 1 };")
-                ka = ka[:1] + ka[2:]
+                ka = (ka[0][:1] + ka[0][2:], ka[1])
+            elif op[1] == "inner-push":
+                lines.append("KI pushBack 2;")
+                ka = (ka[0], ka[1] + [2])
+            else:
+                lines.append("if (count KI > 1) then { KI deleteAt 1 };")
+                ka = (ka[0], ka[1][:1] + ka[1][2:])
         elif op[0] == "copy":
             lines.append("C = +M;")
             refc = dict(ref)
@@ -216,7 +234,7 @@ def check_hist(ws, case):
             if refc is not None:
                 refc.pop(key_class(op[1], ka), None)
         lines.append(OBS)
-        exp.append((dict(ref), None if refc is None else dict(refc), list(ka)))
+        exp.append((dict(ref), None if refc is None else dict(refc), ka))
         states.add(json.dumps([sorted(ref.items()), sorted(refc.items()) if refc is not None else None, ka]))
     text = "\n".join(lines)
     r = ws.call({"mode": "eval", "conf": {"ops": "full"}, "texts": [text]}, variant="fast")
@@ -268,7 +286,7 @@ def opsig(case, upto=None):
     ops = [OPS[i] for i in case[1]][: (upto + 1 if upto is not None else None)]
     kinds = sorted(set((o[0] + ":" + ("KA" if len(o) > 1 and o[1] == "KA" else ("code" if len(o) > 1 and o[1].startswith("{") else ("zero" if len(o) > 1 and o[1] in ("0", "-0") else "other")))) if o[0] in ("set", "del") else o[0] for o in ops))
     mutated = any(o[0] == "mut" for o in ops)
-    ka_key = any(len(o) > 1 and o[1] == "KA" and o[0] == "set" for o in ops) or case[0] == "from-array"
+    ka_key = any(len(o) > 1 and o[1] in ("KA", "KN") and o[0] == "set" for o in ops) or case[0] == "from-array"
     if mutated and ka_key:
         return "array-key-mutated-after-insertion"
     if any(k.endswith(":code") for k in kinds):
@@ -279,4 +297,4 @@ def opsig(case, upto=None):
 def spaces(tier):
     return [Space("relations", gen_rel, check_rel, variant="fast", describe="isEqualTo / == / in / find / hash over all pairs and triples of %d values" % len(POOL)),
             Space("hashmap-histories", gen_hist(3 if tier == "quick" else 4), check_hist, variant="fast",
-                  describe="all operation sequences over 18 operations x 2 initial maps, observed after every operation")]
+                  describe="all operation sequences over 22 operations x 2 initial maps, observed after every operation")]
